@@ -44,6 +44,18 @@ def reachable_objects(run: core.Run, n: int):
     """results of random expressions over parsed leaves, with the leaves themselves"""
     rng = run.rng
     pool = all_spellings()
+    # exhaustive over the ladder: every ordered pair of bound spellings as a two-range union and as a bounded range,
+    # computed by the algebra (no source text attached) -- the shapes the rendering heuristics (`!=X.*`, `==X.*`, `~=`,
+    # `!=V`) inspect; includes epoch-adjacent and all-zero releases (seed C06d: `<1!0 || >=2!0` rendered `!=1!.*`)
+    for L, R in itertools.product(pool, pool):
+        if not Version(L) < Version(R):
+            continue
+        for expr, build in ((f"(<{L})|(>={R})", lambda: parse_version_specifier("<" + L) | parse_version_specifier(">=" + R)),
+                            (f"(>={L})&(<{R})", lambda: parse_version_specifier(">=" + L) & parse_version_specifier("<" + R))):
+            try:
+                yield ("result", expr, build())
+            except Exception:  # noqa: BLE001  (C01's business)
+                pass
     for _ in range(n):
         leaves = []
         for _ in range(rng.choice([1, 2, 2, 3])):
